@@ -264,6 +264,15 @@ theorem rpLock_frame13 {s s' : State} {j v : Nat} (h : rpLock s j v = .ok s') : 
 theorem rpUnlock_frame13 {s s' : State} {j v : Nat} (h : rpUnlock s j v = .ok s') : Frame13 s s' := by
   unfold rpUnlock at h; ok_branches h; subst_pay; frame13_close
 
+theorem readRedeem_frame13 {s s' : State} {k i j p : Nat} (h : readRedeem s k i j p = .ok s') : Frame13 s s' := by
+  unfold readRedeem at h; ok_branches h
+  rename_i sp hsp _
+  refine ⟨rfl, rfl, fun _ => rfl, fun x => ?_⟩
+  show ((s.sps.set i _) x).map (·.offers) = _
+  by_cases hx : x = i
+  · subst hx; rw [Map.set_same, hsp]; rfl
+  · rw [Map.set_other _ _ hx]
+
 
 /-! ## the generic step: both sides of each equality move by the same amount -/
 
